@@ -4,6 +4,7 @@ import numpy as _np
 
 import autograd.builtins as builtins
 from autograd.extend import notrace_primitive, primitive
+from autograd.tracer import getval
 
 if _np.lib.NumpyVersion(_np.__version__) >= "2.0.0":
     from numpy._core.einsumfunc import _parse_einsum_input
@@ -94,7 +95,12 @@ def array_from_args(array_args, array_kwargs, *args):
 
 def select(condlist, choicelist, default=0):
     raw_array = _np.select(list(condlist), list(choicelist), default=default)
-    return array(list(raw_array.ravel())).reshape(raw_array.shape)
+    if raw_array.dtype is not _np.dtype("O"):
+        return raw_array
+    # some choices are traced: rebuild the result from its elements, with the dtype NumPy would give
+    # (it must not depend on which elements happen to be selected)
+    dtype = _np.result_type(*[_np.asarray(getval(c)) for c in choicelist], default)
+    return array(list(raw_array.ravel()), dtype=dtype).reshape(raw_array.shape)
 
 
 def stack(arrays, axis=0):
